@@ -174,6 +174,18 @@ def r18b(R):
                 problems.append('word %r is neither a keyword nor a register' % w)
         if in_quote:
             problems.append('unbalanced double quote')
+        # a quoted name is the last string on its source line: the lexer
+        # takes `\"` for an escaped quote, so after a name that ends in a
+        # backslash it reads on to the next quote of the same line
+        if tmpl.count('"') > 2:
+            problems.append('two quoted strings on one line (a name ending '
+                            'in a backslash swallows the text up to the next '
+                            'quote)')
+        elif '"' in tmpl and not tmpl.endswith('\n'):
+            problems.append('the line is not ended after a quoted name: the '
+                            'next statement\'s quoted name lands on the same '
+                            'line, and a name ending in a backslash swallows '
+                            'the text up to that quote')
         R.check(m, 'template %r' % tmpl, not problems,
                 'the generated script would not compile: %s' % '; '.join(problems))
     setting = ss.methods['setting']
